@@ -117,7 +117,7 @@ impl Stream for RandomModules
 	}
 	fn count(&self, tier: Tier) -> u64
 	{
-		tier.pick(20_000, 500_000)
+		tier.pick(200_000, 500_000)
 	}
 	fn choice_len(&self) -> usize
 	{
